@@ -149,3 +149,53 @@ func FeatureBit(info *types.Info, conds []string) func(Fact) uint64 {
 		return 0
 	}
 }
+
+// CountOnPaths returns, per exit, the set of distinct numbers (capped at 3) of cfg nodes
+// matching `match` that a path from the entry to that exit can execute.
+func (f *Flow) CountOnPaths(match func(ast.Node) bool) map[int]map[int]bool {
+	type key struct {
+		b *cfg.Block
+		n int
+	}
+	exits := f.Exits()
+	out := map[int]map[int]bool{}
+	if len(f.G.Blocks) == 0 {
+		return out
+	}
+	seen := map[key]bool{}
+	work := []key{{f.G.Blocks[0], 0}}
+	for len(work) > 0 {
+		it := work[len(work)-1]
+		work = work[:len(work)-1]
+		if seen[it] {
+			continue
+		}
+		seen[it] = true
+		n := it.n
+		for i, nd := range it.b.Nodes {
+			for ei, e := range exits {
+				if e.Block == it.b && e.Idx == i {
+					if out[ei] == nil {
+						out[ei] = map[int]bool{}
+					}
+					out[ei][n] = true
+				}
+			}
+			if match(nd) && n < 3 {
+				n++
+			}
+		}
+		for ei, e := range exits {
+			if e.Block == it.b && e.Idx >= len(it.b.Nodes) {
+				if out[ei] == nil {
+					out[ei] = map[int]bool{}
+				}
+				out[ei][n] = true
+			}
+		}
+		for _, nx := range it.b.Succs {
+			work = append(work, key{nx, n})
+		}
+	}
+	return out
+}
